@@ -102,7 +102,7 @@ func init() {
 			if transportImpl(p, fn) || isConnWrapper(p, fn) {
 				continue
 			}
-			ast.Inspect(fn.Decl.Body, func(n ast.Node) bool {
+			inspectFn(fn, func(n ast.Node) bool {
 				call, ok := n.(*ast.CallExpr)
 				if !ok || p.IsConversion(call) {
 					return true
